@@ -30,6 +30,7 @@ ASSUMPTIONS.update({
     "clone": "Value::clone (Rc clone) returns an equal value; Position/SymbolName clone likewise",
     "Type": "opaque stand-in", "TypeNameLit": "-", "default": "BlockBindings::default() is an empty block",
     "format_type_error": "format_type_error returns some ErrorMessage and does not panic",
+    "from_hint": "Type::from_hint returns some Result", "check_type": "check_type returns some Result",
     "is_string": "abstraction of `match value.as_ref() { Value_::String(s) => .. }` in check_string: not used",
 })
 LEMMAS = {}
@@ -72,12 +73,29 @@ impl Value {
 pub struct TypeNameLit { pub text: String }
 """
 
+GLUE3 = """
+impl Type {
+    #[verifier::external_body]
+    pub fn from_hint(hint: &TypeHint, types: &OpaqueMap<TypeName, TypeDefAndMethods>, type_bindings: &TypeVarEnv) -> (r: Result<Type, String>) { unimplemented!() }
+}
+#[verifier::external_body]
+pub fn check_type(value: &Value, expected: &Type, env: &Env) -> (r: Result<(), ErrorMessage>) { unimplemented!() }
+"""
+
 # check_string looks inside the value (`match value.as_ref() { Value_::String(s) => Ok(s), _ => ..`);
 # Value is opaque in this unit, so the scrutinee and the String arm are abstracted (unit-local rule)
 STRING_MATCH = rw.simple("local", r"match value\.as_ref\(\) \{\s*Value_::String\(s\) => Ok\(s\),\s*_ =>",
                          "match value.is_string() { Some(s) => Ok(s), None =>")
 
 WITNESSES = [
+    {"match": r"restore\.check_param_types", "kind": "json-session", "props": ["C07"],
+     "input": ["fun f(x: Foo) { x }", "f(1)", ":resume", ":resume"],
+     "expect": {"py": "('panicked' in out+err or out.count('Unbound type in hint') < 3) and 'resume after an unbound-type error did not reproduce it: ' + (out+err)[-300:] or ''"},
+     "note": "an error raised while checking parameter types must be resumable"},
+    {"match": r"restore\.check_param_types", "kind": "json-session", "props": ["C07"],
+     "input": ["fun label(name: String, count: Int) { name }", "label(3, \"apples\")", ":resume", ":resume"],
+     "expect": {"py": "(out.count('Expected `String` but `3`') < 3) and 'resuming changed the failing argument: ' + out[-400:] or ''"},
+     "note": "resuming a failed parameter type check must re-run the call with the arguments in the same order"},
     {"match": r"restore\.site_fn_PreludePrint(ln)?_", "kind": "json-session", "props": ["C07"],
      "input": ["print(1)", ":resume", ":resume"],
      "expect": {"py": "(out.count('Expected `String`') < 3 or 'Expected `Function`' in out or 'panicked' in out+err) and 'resuming did not reproduce the same error: ' + out[-300:] or ''"},
@@ -180,6 +198,17 @@ def build(tier):
         hints=[dict(anchor="let mut saved_values", where="after_stmt", text="let ghost init = saved_values@;")],
         loops={1: dict(invariant=[("built", "__i1 <= arg_values@.len(), saved_values@ =~= init + rev_from(arg_values@, __i1 as int)")],
                        decreases="__i1")},
+        props=both))
+    u.add_type("src/parser/ast.rs", "SymbolWithHint")
+    u.raw(GLUE3, kind="prelude")
+    u.add_fn(EV, "check_param_types", rules=["R5e", "R6", common.r9], contract=Contract(
+        requires=[("same_len", "arg_positions@.len() == arg_values@.len()")],
+        ensures=[("restores_call", "r is Err ==> r->Err_0.0.0@ =~= restore_of_call(*receiver_value, arg_values@)", {"C07"})],
+        loops={1: dict(invariant=[("idx", "__i1 <= arg_values@.len(), arg_positions@.len() == arg_values@.len()")],
+                       decreases="arg_values@.len() - __i1")},
+        optional_loops=dict(pre="let ghost init{I} = saved_values@;",
+                            invariant=[("built", "{I} <= arg_values@.len(), saved_values@ =~= init{I} + rev_from(arg_values@, {I} as int)")],
+                            decreases="{I}"),
         props=both))
     u.add_fn(EV, "check_string", rules=[common.r9, STRING_MATCH, rw.simple("R11", r"(\"[^\"]*\")\.into\(\)", r"vs_string_from_lit(\1)")], contract=Contract(
         ensures=[("passes_saved_values", "r is Err ==> r->Err_0.0.0@ == saved_values@", {"C07"})],
